@@ -35,6 +35,7 @@ type output struct {
 	Guards      map[string]string `json:"guards"`
 	Entries     []entryOut        `json:"entries"`
 	Diagnostics []string          `json:"diagnostics"`
+	CacheWrites []cacheWrite      `json:"cache_writes"`
 	Notes       []string          `json:"notes"`
 	Stats       map[string]int    `json:"stats"`
 	Functions   []fnPaths         `json:"functions"`
@@ -159,6 +160,10 @@ func main() {
 			}
 			out.Entries = append(out.Entries, entryOut{Name: name, Init: e.init, Accesses: w.out})
 			allDiags = append(allDiags, w.diags...)
+			for _, cw := range w.cacheW {
+				cw.Via = name + ": " + cw.Via
+				out.CacheWrites = append(out.CacheWrites, cw)
+			}
 			for k := range w.notFound {
 				notes[name+": "+k] = true
 			}
